@@ -11,7 +11,7 @@ import numpy as np
 PROP = "C06"
 LEVEL = "exploration"
 VARIANTS = ("omp",)
-CASE_TIMEOUT = 300
+CASE_TIMEOUT = 1200
 RULE = ("kinds: (a) commensurate points of integer matrices (|entries|<=4, det<=48) checked by integer arithmetic: count=|det|, S^T q integral, distinct mod 1; "
         "(b) round trip FC -> run_qpoints(commensurate, with_dynamical_matrices) -> DynmatToForceConstants(lang C|Py, full|compact) on random "
         "translation-periodic, permutation-symmetric arrays and pair-model constants over zoo supercells incl. non-diagonal ones with Wigner-Seitz-boundary multiplicities; "
